@@ -21,6 +21,8 @@ Units
 import math
 from fractions import Fraction as Fr
 
+import fractions
+
 import numpy as np
 
 import discretisedfield as df
@@ -1132,7 +1134,10 @@ def _bad_kinds(nvdim, route, nd, dt):
     if strings:
         k += ["tuple-of-str"]
     if nvdim > 1:
-        k += ["nonzero-scalar", "nonzero-complex-scalar", "tuple-too-short", "array-missing-component"]
+        k += ["nonzero-scalar", "nonzero-complex-scalar", "tuple-too-short", "array-missing-component",
+              # one number for several components, in the representations a number can arrive in
+              "nonzero-0d-array", "nonzero-0d-int-array", "nonzero-float32-scalar", "nonzero-int64-scalar",
+              "nonzero-fraction", "one-element-array"]
     else:
         k += ["nshape-extra-cell"]
         if nd > 1:
@@ -1189,6 +1194,18 @@ def unit_bad(ctx):
         spec = 3
     elif kind == "nonzero-complex-scalar":
         spec = 2 - 1j
+    elif kind == "nonzero-0d-array":
+        spec = np.array(2.5)
+    elif kind == "nonzero-0d-int-array":
+        spec = np.asarray(3)
+    elif kind == "nonzero-float32-scalar":
+        spec = np.float32(2.5)
+    elif kind == "nonzero-int64-scalar":
+        spec = np.int64(3)
+    elif kind == "nonzero-fraction":
+        spec = fractions.Fraction(5, 2)
+    elif kind == "one-element-array":
+        spec = np.array([2.5])
     elif kind == "fn-too-many-components":
         spec = lambda p: tuple(range(nvdim + 1))  # noqa: E731
     elif kind == "fn-too-few-components":
